@@ -58,6 +58,36 @@ def run(ctx):
                 if bad:
                     ctx.fail("member:%s:%s:%s" % (c, l, bad[0][0]), "read-only member %s raises on %s / %s: %s" % (bad[0][0], c, l, bad[0][1]),
                              {"platform": p, "cfg": c, "log": l, "block": bn if bn != "random" else list(blocks[bn]), "class": cls, "raised": bad[:5]})
+        # wired blocks: every label some output of this configuration can hold (pumps, blowers, lights - and the devices the facade has no
+        # class for: L120, TvLift, ...), one block per label with that single output wired
+        if ready.get(("async", "zeros")) and (ctx.thorough or i % 12 == ctx.seed % 12):
+            try:
+                fac0, spa0 = facades.build_async_facade(p, c, l, blocks["zeros"])
+                seen_labels = {}
+                for o in spa0.struct.all_outputs:
+                    acc = spa0.accessors[o]
+                    for idx, lab in enumerate(acc.items or []):
+                        if lab and lab not in seen_labels:
+                            seen_labels[lab] = (acc, idx)
+            except Exception:  # noqa
+                seen_labels = {}
+            for lab, (acc, idx) in sorted(seen_labels.items()):
+                blk = bytearray(1024)
+                cur = idx if acc.bitpos is None else ((idx & acc.bitmask) << acc.bitpos)
+                blk[acc.pos:acc.pos + acc.length] = cur.to_bytes(acc.length, "big")
+                for cls, fn in (("async", facades.build_async_facade), ("sync", facades.build_sync_facade)):
+                    ctx.count("wired_label_builds")
+                    try:
+                        fac, spa = fn(p, c, l, bytes(blk))
+                        bad = facades.eval_members(fac, cls == "async")
+                    except Exception as e:  # noqa
+                        ctx.fail("facade:%s:%s:wired:%s" % (c, l, lab), "facade cannot be constructed on %s / %s when output %s is wired to %s (%s: %s)" % (
+                            c, l, acc.tag, lab, type(e).__name__, str(e)[:60]), {"platform": p, "cfg": c, "log": l, "output": acc.tag, "label": lab, "class": cls})
+                        break
+                    if bad:
+                        ctx.fail("member:%s:%s:%s" % (c, l, bad[0][0]), "read-only member %s raises on %s / %s with output %s wired to %s" % (bad[0][0], c, l, acc.tag, lab),
+                                 {"platform": p, "cfg": c, "log": l, "output": acc.tag, "label": lab, "raised": bad[:5]})
+                        break
         key = tuple(int(x) if x.isdigit() else x for x in (p, c.rsplit("-", 1)[1], l.rsplit("-", 1)[1]))
         if (p, int(c.rsplit("-", 1)[1]), int(l.rsplit("-", 1)[1])) in snaps:
             blk = snaps[(p, int(c.rsplit("-", 1)[1]), int(l.rsplit("-", 1)[1]))]
